@@ -178,7 +178,9 @@ def payload_faults(seed):
             continue
         n = len(v.raw)
         pos = sorted(set(int(i * (n - 1) / 15) for i in range(16)) | set(range(min(n, 6)))) if n > 1 else ([0] if n else [])
-        dense = seed.roles.get(oid, "").startswith(DENSE_ROLES) and b"Filter" not in v.dict
+        flt = v.dict.get(b"Filter")
+        raw_format = flt is None or (isinstance(flt, Name) and flt.b in (b"JBIG2Decode", b"CCITTFaxDecode", b"DCTDecode"))
+        dense = seed.roles.get(oid, "").startswith(DENSE_ROLES) and raw_format
         for p in pos:
             yield ["flip", oid, p]
         for mask in (0x10, 0x01, 0x40, 0x80):
